@@ -406,6 +406,22 @@ func genC18(t *rapid.T) c18Case {
 		c.Ins = append(c.Ins, c18In{Hash: mkHash(), Index: idx,
 			Seq: rapid.Uint32().Draw(t, "seq"), Script: scripts[rapid.IntRange(0, len(scripts)-1).Draw(t, "ss")]})
 	}
+	if rapid.IntRange(0, 11).Draw(t, "coinbase") == 0 {
+		// the shape of a coinbase (one input, null outpoint), and shapes one step away from it: a transaction like any other
+		null := c18In{Hash: make(HexBytes, 32), Index: 0xffffffff, Seq: 0xffffffff, Script: HexBytes{3, 1, 2, 3}}
+		switch rapid.IntRange(0, 2).Draw(t, "cbshape") {
+		case 0:
+			c.Ins = []c18In{null}
+		case 1:
+			c.Ins = append([]c18In{null}, c.Ins...)
+		default:
+			null.Index = 0
+			c.Ins = []c18In{null}
+		}
+		if nout < 2 {
+			nout = 3
+		}
+	}
 	for i := 0; i < nout; i++ {
 		v := rapid.SampledFrom([]int64{0, 1, 2, 2100000000000000, math.MaxInt64, -1, math.MinInt64}).Draw(t, "v")
 		if rapid.Bool().Draw(t, "vr") {
